@@ -13,6 +13,9 @@ import (
 	"time"
 )
 
+// outDir: where evidence/ and replays/ are written (the verification directory, unless overridden for scratch runs)
+var outDir string
+
 type knownFinding struct {
 	Property   string `json:"property"`
 	Obligation string `json:"obligation"`
@@ -74,6 +77,8 @@ type checkReport struct {
 	extra       map[string]interface{}
 	wall        float64
 	deadBlocks  []string
+	isUnclaimed func(string) (string, bool)
+	isKnown     func(string) *knownFinding
 }
 
 func cmdCheck(args []string) {
@@ -93,17 +98,22 @@ func cmdCheck(args []string) {
 	}
 	seed, _ := strconv.Atoi(os.Getenv("VERIF_SEED"))
 	vdir := verifDir()
+	outDir = vdir
+	if d := os.Getenv("VERIF_EVIDENCE_DIR"); d != "" {
+		// runs against a scratch copy (mutant self-test) must not overwrite the registered evidence and replays
+		outDir = d
+	}
 	t0 := time.Now()
 	rep := &checkReport{prop: prop, tier: *tier, seed: seed, bySolver: map[string]int{}, trusted: map[string]bool{}, assumptions: map[string]bool{}, extra: map[string]interface{}{}}
 	p, err := loadProgram(*repo, vdir)
 	if err != nil {
 		// the tree does not build or a contract file is malformed: undecided, reported loudly
 		fmt.Printf("govc: cannot load %s: %v\n", *repo, err)
-		rp := writeReplayNote(vdir, prop, "load", "loading /repo failed: "+err.Error())
+		rp := writeReplayNote(outDir, prop, "load", "loading /repo failed: "+err.Error())
 		fmt.Printf("VIOLATION property=%s replay=%s no-failing-input-found\n", prop, rp)
 		rep.violations = append(rep.violations, "load")
 		rep.wall = time.Since(t0).Seconds()
-		writeEvidence(vdir, rep)
+		writeEvidence(outDir, rep)
 		os.Exit(1)
 	}
 	var known []knownFinding
@@ -173,6 +183,7 @@ func cmdCheck(args []string) {
 		}
 		return nil
 	}
+	rep.isUnclaimed, rep.isKnown = isUnclaimed, isKnown
 	usedKnown := map[string]bool{}
 	for _, r := range results {
 		fi := map[string]interface{}{"function": r.key, "generator_s": round3(r.genS)}
@@ -185,7 +196,7 @@ func cmdCheck(args []string) {
 				continue
 			}
 			rep.obligations++
-			rp := writeReplayNote(vdir, prop, name, "no obligations could be generated for "+r.key+": "+r.err)
+			rp := writeReplayNote(outDir, prop, name, "no obligations could be generated for "+r.key+": "+r.err)
 			fmt.Printf("VIOLATION property=%s replay=%s no-failing-input-found\n", prop, rp)
 			rep.violations = append(rep.violations, name)
 			continue
@@ -213,7 +224,7 @@ func cmdCheck(args []string) {
 			}
 			nOb++
 			// failed or undecided obligation that is claimed: violation
-			rp, replayed := x_replay(p, r, o, vdir, prop, work, *noReplay, *repo)
+			rp, replayed := x_replay(p, r, o, outDir, prop, work, *noReplay, *repo)
 			suffix := ""
 			if !replayed {
 				suffix = " no-failing-input-found"
@@ -256,10 +267,10 @@ func cmdCheck(args []string) {
 		fmt.Println(l)
 	}
 	// 2. property-specific extra engines (frame calculus, bounded stand-ins)
-	runExtras(p, rep, vdir, *repo, work)
+	runExtras(p, rep, outDir, *repo, work)
 
 	rep.wall = time.Since(t0).Seconds()
-	writeEvidence(vdir, rep)
+	writeEvidence(outDir, rep)
 	if !*quiet {
 		fmt.Printf("property %s [%s]: %d functions under contract, %d obligations claimed, %d discharged, %d known findings, %d unclaimed, %d violations, solver %.1fs, wall %.1fs\n",
 			prop, *tier, len(results), rep.obligations, rep.discharged, rep.knownN, rep.unclaimedN, len(rep.violations), rep.solverS, rep.wall)
@@ -275,8 +286,8 @@ func cmdCheck(args []string) {
 
 func round3(f float64) float64 { return float64(int(f*1000+0.5)) / 1000 }
 
-func writeReplayNote(vdir, prop, name, text string) string {
-	dir := filepath.Join(vdir, "replays", prop)
+func writeReplayNote(dirRoot, prop, name, text string) string {
+	dir := filepath.Join(dirRoot, "replays", prop)
 	os.MkdirAll(dir, 0o755)
 	base := mangle(name)
 	if len(base) > 120 {
@@ -414,5 +425,3 @@ func writeEvidence(vdir string, rep *checkReport) {
 	os.WriteFile(filepath.Join(vdir, "evidence", rep.prop+".json"), data, 0o644)
 }
 
-// runExtras is extended by the frame calculus and the bounded stand-ins
-func runExtras(p *program, rep *checkReport, vdir, repo, work string) {}
